@@ -52,6 +52,8 @@ def run(ctx):
     RF.check_plan_invariants(ctx, 'R6.3')
     check_registry(ctx)
     check_serializer(ctx)
+    ctx.rule('R6.6', 'tree API contract: TokenList.insert_before/insert_after insert exactly the given token and change nothing else', floor=8)
+    RF.check_tree_api_contract(ctx, 'R6.6')
     from .. import rules_base as RB
     ctx.rule('R6.B', 'base model: token-type containment, token flags / normal form, Token.match and imt behave as the abstract evaluation assumes', floor=1)
     RB.check_base_model(ctx, 'R6.B', parts=('contains', 'flags', 'match', 'imt'))
